@@ -41,7 +41,7 @@ Accepted subset (anything else raises TranslateError with file:line):
              a + b on ints;  a - 1 on ints only where a dominating `if a == 0:
              continue/return` shows a > 0 (tracked through copies and enumerate);
              a < b, a <= b, a > b, a >= b, a == b, a != b between two probabilities or
-             two ints;  not e;  (a, b);  the dict literal with exactly the three item
+             two ints;  p * q on two probabilities;  not e;  e1 and e2, e1 or e2 on booleans;  (a, b);  the dict literal with exactly the three item
              keys;  calls self.f(...) of an already translated function of SPECS.
 
 What the translation does NOT model: exceptions (a subscript out of range is the
@@ -288,11 +288,28 @@ class FunctionTranslator:
             if ta != BOOL:
                 self.fail(e, "`not` of a non-boolean")
             return "negb %s" % _paren(a), BOOL
+        if isinstance(e, ast.BoolOp):
+            # `a and b` / `a or b` on booleans: the operands are pure, so short-circuit evaluation gives the value of andb / orb
+            # (an operand that would raise in Python is the total value of its translation, as everywhere)
+            parts = []
+            for v in e.values:
+                t, ty = self.expr(v, env)
+                if ty != BOOL:
+                    self.fail(e, "`and` / `or` of a non-boolean")
+                parts.append(_paren(t))
+            op = "andb" if isinstance(e.op, ast.And) else "orb"
+            acc = parts[-1]
+            for t in reversed(parts[:-1]):
+                acc = "%s %s %s" % (op, t, _paren(acc))
+            return acc, BOOL
         if isinstance(e, ast.BinOp):
             a, ta = self.expr(e.left, env)
             b, tb = self.expr(e.right, env)
+            if (ta, tb) == (P, P) and isinstance(e.op, ast.Mult):
+                # p * q on probabilities, operands in the order written (x = x * e is x *= e)
+                return "pmul %s %s" % (_paren(a), _paren(b)), P
             if (ta, tb) != (NAT, NAT):
-                self.fail(e, "arithmetic is supported on ints only (probabilities: `x *= e`)")
+                self.fail(e, "arithmetic is supported on ints (+, - 1) and as p * q on probabilities only")
             if isinstance(e.op, ast.Add):
                 return "%s + %s" % (_paren(a), _paren(b)), NAT
             if isinstance(e.op, ast.Sub):
